@@ -12,7 +12,7 @@ CHECKS = {
   design="DESIGN.md §3.3, §3.4, §5 C01"),
  "C02": dict(
   technique="runtime monitor: reference-model oracle (independent precedence-climbing parser over the pinned operator table) + metamorphic oracle (fully parenthesised text parses to the same tree modulo group nodes)",
-  text="Every ordered pair of 50 binary forms, 9 prefix and 4 suffix operators in 8 pair shapes, triples a B b B c B d (every tenth quick, all 125000 thorough), every unary operator around the middle operand of every binary pair, each in a spaced and a tight layout, and random deeper expressions with groups and nested expressions: the real parse tree must equal the reference parser's tree, and the fully parenthesised spelling must parse to the same tree once plain group nodes are removed.",
+  text="Every ordered pair of 50 binary forms, 9 prefix and 4 suffix operators in 8 pair shapes, triples a B b B c B d (every tenth quick, all 125000 thorough), every unary operator around the middle operand of every binary pair, each in a spaced and a tight layout, and random deeper expressions with groups and nested expressions (a third of them once more with a side-effect block after one atom, compared modulo the block): the real parse tree must equal the reference parser's tree, and the fully parenthesised spelling must parse to the same tree once plain group nodes are removed.",
   note="trusts the pinned operator table (DESIGN Appendix D); docs/src/precedence.md disagreements are not judged; rejected inputs are counted only",
   design="DESIGN.md §5 C02, Appendix D"),
  "C03": dict(
